@@ -1,4 +1,5 @@
 import KG.Base.Json
+import KG.Gen.C05
 import KG.Model.MaxInflight
 /-!
 # C05 (b) — `upstreamLimiter` + `FlowControlCache` + `localWrapper.Sync`, as a sequential state machine
@@ -282,6 +283,26 @@ def view (w : World) (c n : Str) : Option Kind :=
   | _ => none
 
 
+/-- The answer a request arriving now for `(c, n)` would get (`none`: the gateway would panic). -/
+def answer (w : World) (c n : Str) (tb : Bool) : Option Bool :=
+  match acquire w c n tb with
+  | .ok (_, b) => some b
+  | .error _ => none
+
+/-- Does `op` concern `(cluster c, schema n)`? A `Sync` concerns every schema of its cluster, a finishing
+    request the schema it arrived for. -/
+def addresses (w : World) (op : Op) (c n : Str) : Prop :=
+  match op with
+  | .sync c' _ => c' = c
+  | .acquire c' n' _ => c' = c ∧ n' = n
+  | .release i =>
+    match w.reqs[i]? with
+    | some r => r.c = c ∧ r.n = n
+    | none => False
+
+/-- worlds reachable from the start by some history -/
+def Reachable (w : World) : Prop := ∃ ops, w = exec World.init ops
+
 /-! ## (c) `dispatcher.ServeHTTP`: what happens to the slot on every way out
 
 The body of `ServeHTTP` is abstracted, statement by statement (top level of the function body, in source
@@ -362,6 +383,9 @@ def shapeOk : List Stmt → Bool
 
 def countAcq (tr : List Event) : Nat := tr.count (.tryAcquire true)
 def countRel (tr : List Event) : Nat := tr.count .release
+
+/-- `dispatcher.ServeHTTP` as regenerated from the current source -/
+def dispatcherProgram : List Stmt := KG.Gen.C05.serveHTTP.map Stmt.ofString
 
 /-- `upstreamLimiter.Load` hands out the limiter in force (`Current()`), never the wrapper, at both places
     where it returns the local limiter. -/
